@@ -48,7 +48,7 @@ theorem Acc_mono {s s' : State} {c c' : SCall} (hp : CallsPersist s s')
 structure Inv (s : State) : Prop where
   sessLt : ∀ sid t, getSess s sid = some t → sid < s.next
   mapOk : ∀ k sid, (k, sid) ∈ s.sessMap → ∃ t, getSess s sid = some t ∧ (t.a, t.b) = k
-  acc : ∀ x ∈ s.accepted, ∃ cf, getSCall s x.2.2.1 = some cf ∧ admit x.2.2.2.2.1 x.2.2.2.2.2 cf.src = true
+  acc : ∀ x ∈ s.accepted, ∃ cf, getSCall s x.2.2.1 = some cf ∧ admitOk x.2.2.2.2.1 x.2.2.2.2.2 cf.src = true
   calls : ∀ id c, getSCall s id = some c → ∃ t, getSess s c.sess = some t ∧ CallInv (Acc s c) t c
 
 /-- Generic preservation lemma: untouched calls (same record, same tracker) are handled here. -/
@@ -59,7 +59,7 @@ theorem Inv_update {s s' : State} (hinv : Inv s)
     (hsp : ∀ sid t, getSess s sid = some t → ∃ t', getSess s' sid = some t' ∧ t'.a = t.a ∧ t'.b = t.b)
     (hcp : CallsPersist s s')
     (hacc : ∀ x ∈ s'.accepted, x ∈ s.accepted ∨
-      ∃ cf, getSCall s' x.2.2.1 = some cf ∧ admit x.2.2.2.2.1 x.2.2.2.2.2 cf.src = true)
+      ∃ cf, getSCall s' x.2.2.1 = some cf ∧ admitOk x.2.2.2.2.1 x.2.2.2.2.2 cf.src = true)
     (haccm : ∀ x ∈ s.accepted, x ∈ s'.accepted)
     (hcalls : ∀ id c', getSCall s' id = some c' →
       (getSCall s id = some c' ∧ getSess s' c'.sess = getSess s c'.sess) ∨
@@ -102,7 +102,7 @@ theorem Inv_sessStep {s s' : State} {d d' : SCall} {t t' : Sess} (hinv : Inv s)
     (hgC : ∀ id, getSCall s' id = if id = d.id then some d' else getSCall s id)
     (hmap : s'.sessMap = s.sessMap) (hnext : s.next ≤ s'.next)
     (hacc : ∀ x ∈ s'.accepted, x ∈ s.accepted ∨
-      (x.2.2.1 = d.id ∧ admit x.2.2.2.2.1 x.2.2.2.2.2 d.src = true))
+      (x.2.2.1 = d.id ∧ admitOk x.2.2.2.2.1 x.2.2.2.2.2 d.src = true))
     (haccm : ∀ x ∈ s.accepted, x ∈ s'.accepted)
     (hself : (∀ e m, Acc s d e m → Acc s' d' e m) → CallInv (Acc s d) t d → CallInv (Acc s' d') t' d')
     (hother : ∀ c, getSCall s c.id = some c → c.id ≠ d.id → c.sess = d.sess →
